@@ -273,8 +273,28 @@ class _ApplyExprHelpers(ast.NodeTransformer):
     visit_ClassDef = visit_FunctionDef
     visit_Lambda = visit_FunctionDef
 
-    def visit_Call(self, n: ast.Call):
+    # only where the result is consumed by a test (an operand of a comparison / `not` / and-or): there no statement-level
+    # expansion reaches the call, and the rules read the test.  Calls whose result is data stay calls (E2 follows those).
+    def visit_Compare(self, n: ast.Compare):
         self.generic_visit(n)
+        n.left = self._try(n.left)
+        n.comparators = [self._try(c) for c in n.comparators]
+        return n
+
+    def visit_BoolOp(self, n: ast.BoolOp):
+        self.generic_visit(n)
+        n.values = [self._try(v) for v in n.values]
+        return n
+
+    def visit_UnaryOp(self, n: ast.UnaryOp):
+        self.generic_visit(n)
+        if isinstance(n.op, ast.Not):
+            n.operand = self._try(n.operand)
+        return n
+
+    def _try(self, n: ast.AST):
+        if not isinstance(n, ast.Call):
+            return n
         r = self.exp._resolve(n, self.cls, False, self.stack)
         if not r:
             return n
